@@ -22,17 +22,17 @@ ASSUMPTIONS = COMMON_ASSUMPTIONS + [
 ]
 
 DOC_KNOBS = dict(frag_pct=35, max_frags=6, repeat_pct=40, skip_pct=25, var_pct=40, typename_pct=18, inline_pct=22,
-                 max_ops=3, introspection_pct=40, alias_pct=35)
+                 max_ops=3, introspection_pct=40, alias_pct=35, op_kinds=("query", "mutation", "subscription"))
 
 
 def run_one(seed, preset=None, tier="quick", want_case=False):
-    r = run_single(ID, seed, preset, want_case, doc_knobs=DOC_KNOBS, schema_knobs={"max_objects": 4})
+    r = run_single(ID, seed, preset, want_case, doc_knobs=DOC_KNOBS, schema_knobs={"max_objects": 4, "subscription_pct": 30})
     if r.get("early"):
         return strip_private(r)
     plan, case = r["_plan"], r["_case"]
     p = r["probes"]
     hits = [k for k in ("fragment_spread_twice_same_owner", "fragments_share_subfragment", "var_only_in_fragment", "repeated_key",
                         "introspection___type", "introspection___schema", "fragments_after_use", "merged_subselection",
-                        "fragment_visited_twice", "skip_on_spread") if p.get(k)]
+                        "fragment_visited_twice", "skip_on_spread", "subscription_root_repeated") if p.get(k)]
     r["nontrivial"] = bool(not r["viol"] and (len(case.doc.fragments()) >= 2 or hits))
     return strip_private(r)
